@@ -88,7 +88,7 @@ def gen(rng, i, tier):
             "render": i % 9 == 0, "hostile": hostile, "current_scale": scale,
             # the drawn system may be the product of an edit history (registries out of node order, index gaps)
             "history": ["fresh", "identity_change_comp", "index_gaps", "solve_then_move_leaf", "solve_then_phase_conf", "solve_then_change_comp",
-                        "solve_then_retune", "solve_then_retune", "solve_then_swap_leaves", "solve_then_rename", "solve_then_phase_edit"][i % 11]}
+                        "solve_then_retune", "solve_then_retune", "solve_then_swap_leaves", "solve_then_rename", "solve_then_phase_edit", "scratch_first_source"][i % 12]}
 
 
 def make_config(rng, ns, spec):
